@@ -25,7 +25,8 @@ LEVEL = ("(Limit clause also with a bath-memory cut-off time and through both co
          "bath axis, with refinement) agrees at every stored time; (3) TD tensor is zero at the first time index and "
          "equals the static tensor at the last; (4) uncoupled sites with high-temperature or general overdamped "
          "Brownian baths: TD-Redfield propagation of every coherence equals exp(-i(w-W)t - g_a(t) - conj g_b(t)) within "
-         "the first-order endpoint-rule error dt*max|dg/dt| plus the Taylor truncation bound.")
+         "the first-order endpoint-rule error dt*max|dg/dt| plus the Taylor truncation bound."
+         " Later additions: deterministic grid of time dependence x coarser axis x refinement x dephasing x named expansion order.")
 NOTE = ("Clause 4 tolerance is an explicit error model: the time-local propagation sums g'(t_n) dt instead of "
         "integrating g', which is bounded by dt times the total variation of g' (bounded analytically, exponential term "
         "by term); allowed = 1.25*|rho_ab(0)|*dt_eff*TV(g_a' + conj g_b') + class-2 bound + 2e-4, the factor 1.25 "
